@@ -161,15 +161,20 @@ fn check_validator_x(fmt: u8, n: usize, ff: usize, mode: Mode, ffw: Option<usize
 }
 
 /// After a padding error the protocol state is the initial one and the next packet is judged from there.
-fn check_reset(fmt: u8, ff: usize, lead_words: usize) -> Option<(String, String)> {
-    let cfg: &'static MockConfig = val::mode_cfg(Mode::AllIts);
+/// `stave`: the same in `check all its-stave`, where the protocol state includes the open readout frame (the lane data
+/// collected since the last non-continuation TDH): lead-ins are the prefixes of a page with one complete ALPIDE frame
+/// and of a page that leaves a frame open; the conforming HBF that follows carries a complete frame of its own.
+fn check_reset_in(fmt: u8, ff: usize, lead_words: usize, stave: bool) -> Option<(String, String)> {
+    let cfg: &'static MockConfig = val::mode_cfg(if stave { Mode::AllStave } else { Mode::AllIts });
     let mut lc = LinkCfg::ib(0, 0);
     lc.data_format = fmt;
-    let conforming = grammar::render_link(&lc, &[grammar::basic_hbf_shapes(&lc)[0].1.clone()]);
+    let shapes = |c: &LinkCfg| if stave { grammar::stave_hbf_shapes(c) } else { grammar::basic_hbf_shapes(c) };
+    let open_idx = if stave { 4 } else { 7 };
+    let conforming = grammar::render_link(&lc, &[shapes(&lc)[0].1.clone()]);
     // leave the FSM in a non-initial state: a page holding only a prefix of a conforming page. Lead-ins 1..: the
     // prefixes of "IHW TDH data data data TDT(done)", then the prefixes of "IHW TDH(no data) TDH data data data
     // TDT(packet_done = 0)" - the last one leaves the FSM waiting for a continuation page
-    let open_page = grammar::render_link(&lc, &[grammar::basic_hbf_shapes(&lc)[7].1.clone()]);
+    let open_page = grammar::render_link(&lc, &[shapes(&lc)[open_idx].1.clone()]);
     let mut leadins: Vec<Vec<[u8; 10]>> = Vec::new();
     for page in [&conforming[0], &open_page[0]] {
         for n in 1..=page.words.len() {
@@ -213,7 +218,7 @@ fn check_reset(fmt: u8, ff: usize, lead_words: usize) -> Option<(String, String)
         let mut msgs = Vec::new();
         let mut lc2 = lc.clone();
         lc2.first_orbit += 7;
-        let follow = grammar::render_link(&lc2, &[grammar::basic_hbf_shapes(&lc2)[0].1.clone()]);
+        let follow = grammar::render_link(&lc2, &[shapes(&lc2)[0].1.clone()]);
         for (i, p) in follow.iter().enumerate() {
             lv.verif_step((val::rdh_from(&p.packet.rdh.encode()), p.packet.payload.clone(), 0x2000 + 0x1000 * i as u64));
             msgs.extend(val::error_texts(&rx.try_iter().collect::<Vec<_>>()));
@@ -281,6 +286,10 @@ fn check_view(fmt: u8, n: usize, ff: usize, data: bool) -> Option<(String, Strin
     }
     let rows = crate::c19::parse_rows(&run.stdout_str());
     let want = crate::c19::expected_frame_rows(&bytes, None, data);
+    if ff > 15 && rows.len() < want.len() && rows.first() == want.first() && !rows.iter().any(|r| !want.contains(r)) {
+        // the rejected payload must be skipped and the view go on with the next packet
+        return Some(("view:padding-error-ends-the-view".into(), format!("after the payload with {ff} bytes of 0xFF the view ends: {} rows printed, {} RDHs / words to show (the next packet is not shown); stderr: {}", rows.len(), want.len(), run.stderr_str().lines().find(|l| l.contains("FATAL") || l.contains("rror")).unwrap_or("").chars().take(160).collect::<String>())));
+    }
     if rows.len() != want.len() {
         return Some(("view:row-count".into(), format!("{} rows printed, the payloads hold {} RDHs / words to show", rows.len(), want.len())));
     }
@@ -421,14 +430,18 @@ pub fn run(tier: Tier) -> i32 {
     for fmt in [0u8, 2] {
         for ff in [16usize, 17, 25, 40] {
             for lead in 1..=14usize {
-                rcases.push((fmt, ff, lead));
+                rcases.push((fmt, ff, lead, false));
+            }
+            // stave mode: the open readout frame is part of the state
+            for lead in 1..=24usize {
+                rcases.push((fmt, ff, lead, true));
             }
         }
     }
-    let r3 = par_map(&rcases, |_, (f, k, l)| check_reset(*f, *k, *l));
-    for ((f, k, l), r) in rcases.iter().zip(r3.iter()) {
+    let r3 = par_map(&rcases, |_, (f, k, l, st)| check_reset_in(*f, *k, *l, *st));
+    for ((f, k, l, st), r) in rcases.iter().zip(r3.iter()) {
         if let Some((sig, d)) = r {
-            rep.violation(Violation { signature: sig.clone(), description: format!("{d} [format {f}, {k} x 0xFF, {l} lead-in words]"), replay: json!({"kind": "reset", "fmt": f, "ff": k, "lead": l}) });
+            rep.violation(Violation { signature: if *st { format!("{sig}:stave-mode") } else { sig.clone() }, description: format!("{d} [format {f}, {k} x 0xFF, {l} lead-in words{}]", if *st { ", check all its-stave" } else { "" }), replay: json!({"kind": "reset", "fmt": f, "ff": k, "lead": l, "stave": st}) });
         }
     }
     // the readout-frame views (real CLI): formats x word counts x 0..=15 padding bytes x {frames, frames+data}
@@ -436,7 +449,11 @@ pub fn run(tier: Tier) -> i32 {
     let wcounts: Vec<usize> = if tier.is_thorough() { (2..=40).chain([511, 512, 700]).collect() } else { vec![2, 3, 8, 9, 10, 11, 16] };
     for fmt in [0u8, 2] {
         for &n in &wcounts {
-            for ff in 0..=15usize {
+            for ff in 0..=40usize {
+                // beyond 15 bytes the payload is rejected: nothing of it is shown, the next packet is
+                if ff > 15 && !tier.is_thorough() && n > 3 && n != 16 {
+                    continue;
+                }
                 for data in [false, true] {
                     wcases.push((fmt, n, ff, data));
                 }
@@ -453,7 +470,7 @@ pub fn run(tier: Tier) -> i32 {
     rep.cov("evaluations", json!(cases.len() + vcases.len() + rcases.len() + wcases.len()));
     rep.cov("distinct_nontrivial", json!(nontrivial));
     rep.cov("exhaustive", json!(true));
-    rep.cov("rule", json!("formats {0,2} x word counts {0..=12, 511, 512, 700 (quick) / every count 0..=700 (thorough)} x 0..=40 trailing 0xFF bytes through preprocess_payload and (x 2 modes) through a real LinkValidator with individually recognisable faulty words; all 63 proper subsets of zero bytes among the first six bytes of the second word of a format-2 payload (must not be taken for format 0); reset after the padding error for 16/17/25/40 bytes x 14 lead-in states (every prefix of a complete page and of a page that ends with TDT packet_done = 0) x 2 formats; the two readout-frame views through the real CLI for word counts {2,3,8..11,16} (quick) / {2..=40,511,512,700} (thorough) x 0..=15 padding bytes x 2 formats, every printed row compared with the model's decode. non-trivial = at least one padding byte present"));
+    rep.cov("rule", json!("formats {0,2} x word counts {0..=12, 511, 512, 700 (quick) / every count 0..=700 (thorough)} x 0..=40 trailing 0xFF bytes through preprocess_payload and (x 2 modes) through a real LinkValidator with individually recognisable faulty words; all 63 proper subsets of zero bytes among the first six bytes of the second word of a format-2 payload (must not be taken for format 0); reset after the padding error for 16/17/25/40 bytes x 14 lead-in states (every prefix of a complete page and of a page that ends with TDT packet_done = 0) x 2 formats; the two readout-frame views through the real CLI for word counts {2,3,8..11,16} (quick) / {2..=40,511,512,700} (thorough) x 0..=15 padding bytes (and 16..=40: the payload is rejected, nothing of it is shown, the next packet is) x 2 formats, every printed row compared with the model's decode. non-trivial = at least one padding byte present"));
     rep.sample(json!({"fmt": 2, "words": 3, "ff": 10, "payload_hex": hex(&build_payload(2, 3, 10))}));
     rep.sample(json!({"fmt": 0, "words": 2, "ff": 16, "expect": "one 'Payload error following RDH', no word examined, FSM reset"}));
     rep.assume("word contents do not imitate the other format's padding (a format-2 payload whose bytes 10..15 are all zero is the separate row of C02/known findings)");
@@ -468,7 +485,7 @@ pub fn replay(v: &serde_json::Value) -> i32 {
         "preprocess" => check_preprocess_x(g("fmt") as u8, g("n"), g("ff"), r["ffw"].as_u64().map(|x| x as usize)),
         "view" => check_view(g("fmt") as u8, g("n"), g("ff"), r["data"].as_bool().unwrap_or(false)),
         "validator" => check_validator_x(g("fmt") as u8, g("n"), g("ff"), if r["mode"] == "check sanity its" { Mode::SanityIts } else { Mode::AllIts }, r["ffw"].as_u64().map(|x| x as usize)),
-        _ => check_reset(g("fmt") as u8, g("ff"), g("lead")),
+        _ => check_reset_in(g("fmt") as u8, g("ff"), g("lead"), r["stave"].as_bool().unwrap_or(false)),
     };
     match res {
         Some((s, d)) => {
